@@ -193,6 +193,7 @@ def build(R, cls=None):
     for s in sorted(finals, key=repr): aut.add_final_state(s)
     for (p, a, q) in sorted(trans, key=repr):
         aut.add_transition(p, 'epsilon' if a is None else a, q)
+    for a in sorted(symbols, key=repr): aut.add_symbol(a)
     return aut
 
 
